@@ -235,6 +235,16 @@ def run(chk, scratch):
                     if not hits(loc, kept) and hits(loc, dropped):
                         chk.violation("suspended-alignment-printed", "%s: read %s is printed at %s:%d-%d, an alignment the resolver suspended (kept: %s)" %
                                       (desc, rid, loc[0], loc[1], loc[2], kept[:3]), wit)
+                # the flag the resolver gave to a retained alignment is the flag that is printed for it
+                for c, e, i, t in recs.get(rid, ()):
+                    if not e:
+                        continue
+                    loc = (c, e[0][0], e[-1][1])
+                    want = set(k[3] for k in kept if loc[0] == k[0] and loc[1] <= k[2] and k[1] <= loc[2])
+                    got = t.split("/gene:")[0]
+                    if want and got not in want:
+                        chk.violation("printed-flag-differs-from-verdict", "%s: read %s at %s:%d-%d is printed as %s, the resolver's verdict for this alignment is %s" %
+                                      (desc, rid, loc[0], loc[1], loc[2], got, sorted(want)), wit)
                 for k in kept:
                     if k[3] not in ("noninformative", "intergenic") and not hits(k, list(printed)):
                         chk.violation("retained-alignment-not-printed", "%s: read %s: the resolver kept %s:%d-%d (%s) but no record is printed there (printed: %s)" %
